@@ -9,9 +9,11 @@ mkdir -p /verif/bin /verif/evidence
 if [ -x "/verif/checks/$lc/run.sh" ]; then
   exec "/verif/checks/$lc/run.sh" "$tier" "$@"
 fi
-if ! go build -o "/verif/bin/$lc" "./checks/$lc" 2> "/verif/bin/$lc.buildlog"; then
+ov=""; out="/verif/bin/$lc"
+if [ -n "${VERIF_OVERLAY:-}" ]; then ov="-overlay=$VERIF_OVERLAY"; out="/verif/bin/$lc.mut"; fi
+if ! go build $ov -o "$out" "./checks/$lc" 2> "/verif/bin/$lc.buildlog"; then
   cat "/verif/bin/$lc.buildlog" >&2
   echo "BUILD-FAILED check=$id (the check could not be built against the current /repo tree)" >&2
   exit 2
 fi
-exec "/verif/bin/$lc" -tier "$tier" "$@"
+exec "$out" -tier "$tier" "$@"
